@@ -59,6 +59,11 @@ func genCacheCase(t *rapid.T) CacheCase {
 			}
 		}
 		ts.NCmds = rapid.SampledFrom([]int{0, 1, 1, 1, 2, 2}).Draw(t, "ncmds")
+		if ts.NCmds > 0 && rapid.IntRange(0, 3).Draw(t, "has_side_effect") == 3 {
+			// a command that rewrites an (existing) file, possibly a dependency of this or another task
+			f := rapid.SampledFrom(universe).Draw(t, "side_effect_file")
+			ts.Writes = append(ts.Writes, FileWrite{File: f, Content: rapid.SampledFrom(contents).Draw(t, "side_effect_content")})
+		}
 		c.Tasks = append(c.Tasks, ts)
 	}
 	for _, f := range universe {
@@ -137,6 +142,9 @@ func classifyCase(s *ev.Shard, c CacheCase) {
 		if len(t.Deps) > 0 {
 			chain = true
 		}
+		if len(t.Writes) > 0 {
+			s.Class("prog_task_rewrites_other_tasks_input")
+		}
 	}
 	for _, n := range lits {
 		if n > 1 {
@@ -197,6 +205,7 @@ var enumProgs = [][]TaskSpec{
 	{{Name: "A", Files: []string{"a.txt"}, NCmds: 1}, {Name: "B", Files: []string{"b.txt"}, NCmds: 1}},
 	{{Name: "A", Files: []string{"a.txt"}, NCmds: 1}, {Name: "B", NCmds: 1}},
 	{{Name: "A", Globs: []string{"*.txt"}, Deps: []string{"B"}, NCmds: 1}, {Name: "B", Files: []string{"b.txt"}, NCmds: 1}},
+	{{Name: "A", Files: []string{"a.txt"}, Deps: []string{"B"}, NCmds: 1}, {Name: "B", Files: []string{"b.txt"}, NCmds: 1, Writes: []FileWrite{{File: "a.txt", Content: "2"}}}},
 }
 
 var enumActions = []Step{
